@@ -16,7 +16,7 @@ echo "### $B  module=$MOD synctest=$SYN"
 mkdir -p /tmp/seed/aside_$B; mv $WT/gbn/zz_seed*_test.go $WT/mailbox/zz_seed*_test.go /tmp/seed/aside_$B/ 2>/dev/null
 for id in "$@"; do
   echo "== check $id against the worktree"
-  VERIF_REPO=$WT timeout 3000 /verif/bin/gosym check $id --tier quick 2>&1 | grep -v conda | grep "^VIOLATION\|^KNOWN\|^OK\|^FAIL\|INCONCLUSIVE\|violations=[1-9]\|unsupported=[1-9]\|inconclusive=[1-9]\|MISMATCH\|cannot run" | cut -c1-400
+  VERIF_REPO=$WT timeout 3000 /verif/bin/gosym check $id --tier quick 2>&1 | grep -v conda | grep "^VIOLATION\|^KNOWN\|^OK\|^FAIL\|INCONCLUSIVE\|violations=[1-9]\|unsupported=[1-9]\|inconclusive=[1-9]\|MISMATCH\|cannot run" | cut -c1-400 | awk '!seen[$0]++' | head -20
   echo "rc=${PIPESTATUS[0]}"
 done
 } > $OUT 2>&1
